@@ -45,13 +45,15 @@ Proof.
   exists (mkraw (-5001) 4224). split; vm_compute; reflexivity.
 Qed.
 
-(* add_days / days_until are inverse as long as the computation stays on one side of year 0.
-   The side condition is stated on Date::days (D = date_days r): either D >= 0 (years >= 0) and the
-   target D+n is in [0, 365*32768), or D < 0 (years <= -1) and the target is in (-365*32769, -365].
-   The result is again a valid Date, its day number is D+n, and days_until gives back n. *)
+(* add_days / days_until are inverse as long as the result stays out of the "negative year 0":
+   with D = date_days r (Date::days), the target day number D+n must be >= 0 (years 0..32767) or
+   <= -365 (years -32768..-1).  This covers "the computation stays on one side of year 0" and is
+   slightly more general (crossing is fine, landing in (-365,0) is not: the model reproduces the
+   documented inconsistency there, see the example).  The result is again a valid Date, its day
+   number is D+n, and days_until gives back n. *)
 Theorem C13_add_days_until : forall r n D,
   is_date r -> date_days r = Ok D ->
-  (0 <= D /\ 0 <= D + n < 11960320) \/ (D < 0 /\ -11960685 < D + n <= -365) ->
+  0 <= D + n < 11960320 \/ -11960685 < D + n <= -365 ->
   exists r', add_days r n = Ok r' /\ is_date r' /\ date_days r' = Ok (D + n) /\ days_until r r' = Ok n.
 Proof. exact add_days_until. Qed.
 Print Assumptions C13_add_days_until.
@@ -79,11 +81,11 @@ Example C13_arith_nonvacuous :
   add_days (mkraw 1400 4352) 728 = Ok (mkraw 1401 53120) /\
   is_date (mkraw (-3) 4352) /\ date_days (mkraw (-3) 4352) = Ok (-1096) /\
   add_days (mkraw (-3) 4352) (-400) = Ok (mkraw (-4) 8960) /\
-  (exists r', add_days (mkraw (-1) 4352) 400 = Ok r' /\ days_until (mkraw (-1) 4352) r' <> Ok 400).
+  (exists r', add_days (mkraw (-1) 4352) 100 = Ok r' /\ days_until (mkraw (-1) 4352) r' <> Ok 100).
 Proof.
   split; [exists 1400, 1, 2; repeat split; vm_compute; reflexivity|].
   split; [vm_compute; reflexivity|]. split; [vm_compute; reflexivity|].
   split; [exists (-3), 1, 2; repeat split; vm_compute; reflexivity|].
   split; [vm_compute; reflexivity|]. split; [vm_compute; reflexivity|].
-  eexists. split; [vm_compute; reflexivity|]. vm_compute. discriminate.
+  eexists. split; [vm_compute; reflexivity|]. intros H; vm_compute in H; inversion H.
 Qed.
